@@ -89,6 +89,7 @@ func verifyFunc(p *Prog, key string) *FuncResult {
 		o.Kind = "vacuity"
 	}
 	rets := fr.run(st, args)
+	e.vc.curTag = -1
 	if c != nil && len(e.oos) == 0 && len(rets) > 0 {
 		rts := resultTypes(fn.Signature)
 		// merge all returns into one final state: one obligation per ensures clause (names independent of the number of returns)
@@ -118,10 +119,38 @@ func verifyFunc(p *Prog, key string) *FuncResult {
 				names[c.ResultNames[i]] = v
 			}
 		}
-		env := &evalEnv{e: e, st: fin, old: entry, lookup: func(n string) (Val, bool) { v, ok := names[n]; return v, ok }, fr: fr}
+		_ = names
+		// one obligation per ensures clause: the conjunction over all return paths, each evaluated in its own state
+		// (simpler terms than a merged state; the obligation name does not depend on the number of returns)
+		type retEnv struct {
+			cond string
+			env  *evalEnv
+		}
+		var renvs []retEnv
+		for _, r := range rets {
+			rn := map[string]Val{}
+			for i, prm := range fn.Params {
+				rn[prm.Name()] = args[i]
+				if i < len(c.ParamNames) && c.ParamNames[i] != "" {
+					rn[c.ParamNames[i]] = args[i]
+				}
+			}
+			for i := range rts {
+				if i < len(c.ResultNames) && c.ResultNames[i] != "" && i < len(r.vals) {
+					rn[c.ResultNames[i]] = r.vals[i]
+				}
+			}
+			rst := r.st.clone()
+			rst.cond = r.cond
+			renvs = append(renvs, retEnv{r.cond, &evalEnv{e: e, st: rst, old: entry, lookup: func(n string) (Val, bool) { v, ok := rn[n]; return v, ok }, fr: fr}})
+		}
+		tt := &State{cond: "true", heaps: map[string]string{}, top: fin.top}
 		for _, en := range c.Ensures {
-			f := e.evalBool(en.expr, env)
-			e.addObl(fin, "ensures", en.label, f, fn.Pos())
+			var parts []string
+			for _, re := range renvs {
+				parts = append(parts, implies(re.cond, e.evalBool(en.expr, re.env)))
+			}
+			e.addObl(tt, "ensures", en.label, and(parts...), fn.Pos())
 		}
 		e.frameObls(fin, entry, c)
 		for ri, r := range rets {
